@@ -327,6 +327,43 @@ theorem collapse_preserves_failed (config : Bytes) (m : Multi) :
     (collapse config m).result = joinLF (m.responses.map (·.result)) ∧
     (collapse config m).input = config := ⟨rfl, Iff.rfl, rfl, rfl⟩
 
+/-- "A collapsed config response reports the same", unconditionally: for EVERY device, config,
+driver-level and operation-level failure list (strings with line feeds, empty strings, anything)
+and stop-on-failed setting, `SendConfig` is exactly `SendCommands` over the config's lines followed
+by `collapse`: same device state and transmitted lines, and the collapsed response carries the
+multi-response's verdict (the very same error, hence failed iff the multi-response is failed,
+listing the same members). In particular the verdict is never re-derived from the joined output —
+a failure string that only appears across the joint of two outputs fails neither. -/
+theorem collapse_agrees_with_multi {σ : Type} (dev : Dev σ) (drv : List Bytes) (op : Op)
+    (s : Sess σ) (config : Bytes) :
+    ∃ (m : Multi) (r : Resp) (s' : Sess σ),
+      sendCommands dev drv op s (splitLF config) = (some m, s') ∧
+      sendConfig dev drv op s config = (some r, s') ∧
+      r.failed = m.failed ∧
+      (r.failed.isSome = true ↔ m.failed.isSome = true) ∧
+      (r.failed.isSome = true ↔ ∃ x ∈ m.responses, x.failed.isSome = true) ∧
+      r.result = joinLF (m.responses.map (·.result)) := by
+  have hchar := sendCommands_char dev drv op s (splitLF config) (splitLF_ne_nil config)
+  refine ⟨_, collapse config _, _, hchar, ?_, rfl, Iff.rfl, ?_, rfl⟩
+  · simp only [sendConfig, hchar]
+  · show (aggregate _).isSome = true ↔ _
+    have hrec : ∀ r ∈ List.zipWith (mkResp (effective op.fwc drv))
+        ((splitLF config).take (sentCount op.stop ((answers dev s.dev (splitLF config)).map (marks (effective op.fwc drv)))))
+        ((answers dev s.dev (splitLF config)).take (sentCount op.stop ((answers dev s.dev (splitLF config)).map (marks (effective op.fwc drv))))),
+        Recorded r := by
+      intro r hr
+      simp only [List.mem_iff_getElem, List.getElem_zipWith] at hr
+      obtain ⟨i, hi, rfl⟩ := hr
+      exact recorded_mkResp _ _ _
+    have := multi_failed_iff_any_member _ hrec
+    rw [foldl_append_empty] at this
+    exact this
+
+/-- the straddling case: the failure string "a\nb" occurs in the joined output "x a\nb y" but in no
+member; the multi-response is not failed and neither is the collapsed response -/
+example : (sendConfig (σ := Nat) (fun i _ => (i + 1, if i == 0 then ofStr "x a" else ofStr "b y"))
+    [ofStr "a\nb"] ⟨[], false⟩ ⟨0, []⟩ (ofStr "l1\nl2")).1.map (·.failed) = some none := by decide +kernel
+
 /-- End to end: `SendConfig` sends the lines of the config under the same prefix rule as
 `SendCommands` and is failed iff one of the transmitted lines' answers contains a failure string
 in force. If moreover no failure string contains a line feed, that is the case iff the collapsed
